@@ -196,6 +196,9 @@ def gen_plan(rng, tier, i):
     if "epoch" in spec and child.random() < 0.2:
         # fractions of a second whose product by 1e6 falls just below a whole number in binary floating point
         spec["epoch"][1] = float(int(spec["epoch"][1])) + child.choice([0.0157, 0.0314, 0.0628, 0.000249, 0.127069, 0.508265, 0.29, 0.57, 0.58])
+    if spec.get("user") and child.random() < 0.4:
+        # user-defined keywords are free: lower case, mixed case, names differing by case only
+        spec["user"] = child.choice([{"operator": "cnes", "dragArea": "2.5"}, {"MASS": "812.5", "mass": "800"}, {"Foo": "bar", "FOO": "BAR"}])
     if kind == "tdm" and len(spec.get("paths", [])) > 1 and child.random() < 0.5:
         # each station dates its measures in its own time scale
         spec["path_scales"] = [child.choice(["UTC", "TAI", "TT", "GPS"]) for _ in spec["paths"]]
